@@ -45,6 +45,14 @@ func (eng *Engine) instrNonFresh(ins ssa.Instruction, out map[string]bool, ok fu
 		eng.callNonFresh(&x.Call, out, ok)
 	case *ssa.Defer:
 		eng.callNonFresh(&x.Call, out, ok)
+	case *ssa.Send:
+		out["Gh.chan.sent"] = true
+	case *ssa.Select:
+		for _, st := range x.States {
+			if st.Dir == types.SendOnly {
+				out["Gh.chan.sent"] = true
+			}
+		}
 	case *ssa.Next:
 		if rng, isR := x.Iter.(*ssa.Range); isR {
 			if mt, isM := rng.X.Type().Underlying().(*types.Map); isM && !ok(rng) {
@@ -179,8 +187,15 @@ func (eng *Engine) contractNonFresh(ct *Contract, fn *ssa.Function, sig *types.S
 	pkg := eng.pkgByPath(ct.Pkg)
 	names, ts := paramNamesTypes(ct, fn, sig)
 	if ct.Kind == "iface" {
-		names = append([]string{"recv"}, names...)
-		ts = append([]types.Type{nil}, ts...)
+		names = []string{"recv"}
+		ts = []types.Type{nil}
+		if sig.Recv() != nil {
+			ts[0] = sig.Recv().Type()
+		}
+		for i := 0; i < sig.Params().Len(); i++ {
+			names = append(names, sig.Params().At(i).Name())
+			ts = append(ts, sig.Params().At(i).Type())
+		}
 		if len(ct.ParamNames) > 0 {
 			for i, n := range ct.ParamNames {
 				if i < len(names) {
